@@ -138,6 +138,10 @@ XPRELUDE = PRELUDE + ("template<class T> struct Box { T *p; };\ntemplate<class A
 XSCAL = ["int", "double", "char", "float", "bool", "unsigned int"]
 
 
+# constant expressions over the same operands that differ only in an operator: each is its own type argument / array bound
+XEXPR = ["4 + 2", "4 * 2", "4 - 2", "4 << 2", "4 | 2", "-2 + 8", "~2 + 8", "(4 > 2 ? 3 : 5)", "(4 < 2 ? 3 : 5)", "(4 > 2 ? 3 : 7)", "4 / 2", "4 % 3"]
+
+
 def x_base(rng, depth):
     """a named type: scalar, class, or a template-id whose arguments are themselves type-ids (function types, member pointers, template-ids)"""
     r = rng.random()
@@ -147,7 +151,7 @@ def x_base(rng, depth):
         return "Box<%s >" % x_tid(rng, depth - 1, arg=True).replace("@", "").strip()
     if r < 0.8:
         return "Pair<%s, %s >" % (x_tid(rng, depth - 1, arg=True).replace("@", "").strip(), x_tid(rng, depth - 1, arg=True).replace("@", "").strip())
-    n = rng.choice(["3", "1 + 2", "sizeof(Box<%s >)" % rng.choice(XSCAL), "(sizeof(Box<%s >) > 1)" % rng.choice(XSCAL), "(2 > 1)", "(4 >> 1)"])
+    n = rng.choice(["3", "1 + 2", "sizeof(Box<%s >)" % rng.choice(XSCAL), "(sizeof(Box<%s >) > 1)" % rng.choice(XSCAL), "(2 > 1)", "(4 >> 1)"] + XEXPR)
     return "Ring<%s, %s >" % (n, x_tid(rng, depth - 1, arg=True).replace("@", "").strip())
 
 
@@ -170,6 +174,8 @@ def x_tid(rng, depth, arg=False, param=False, top=False):
         r = rng.choice([0.1, 0.4, 0.6, 0.95])
     if 0.85 <= r < 0.92:
         r = 0.8
+    if r < 0.08 and not arg:      # (in a template argument `T (*)[N]` falls under the known finding about abstract declarators)
+        return "%s (*@)[%s]" % (rng.choice(XSCAL), rng.choice(XEXPR))          # pointer to an array whose bound is an expression
     if r < 0.3:
         return "%s @" % x_base(rng, depth)
     if r < 0.45:
@@ -264,14 +270,25 @@ def run_extended_known(ck, wd, bdir):
                "inside a template argument the abstract declarators `R (C::*)(..)` and `T *(*)(..)` are not understood ('invalid type' warning; the argument "
                "becomes `unknown`): `extern Box<void (S0::*)() > v3;` is printed `%s` (empty_instance_identifier in cppBison.yxx has no production for them; "
                "repairing it means changing the grammar and regenerating the prebuilt parser)")]
+    probes += [("known:literal-suffix-dropped", "template<long long N> struct LL { };\nextern LL<(1LL << 40)> v4;\n", r"1LL",
+                "the suffix of an integer literal is not recorded: `extern LL<(1LL << 40)> v4;` is printed `%s`, whose `1 << 40` is an `int` shift (the expression "
+                "node keeps the value only; a repair adds the literal's type to T_integer nodes and to every place that folds them)")]
     for key, src, must, what in probes:
         text = XPRELUDE + "".join("// CHECK: x\n%s\n" % l for l in src.strip().split("\n"))
         (wd / "known.h").write_text(text)
         rc, so, se = iglib.sh([str(bdir / "bin" / "parse_file"), "-T", "known.h"], cwd=str(wd), timeout=60)
         actual = [re.sub(r"\b(?:struct|class) (\w+(?:< .*? >)?) \{[^{}]*\}", r"\1", a) for a in re.findall(r"^actual: (.*)$", se, re.M)]
         ck.search_case("known-limit-probe")
-        if actual and not re.search(must, actual[0]):
-            ck.violation(key, what % actual[0], {"known.h": text}, se[-1500:])
+        if actual and not re.search(must, actual[-1] if key.endswith("suffix-dropped") else actual[0]):
+            ck.violation(key, what % (actual[-1] if key.endswith("suffix-dropped") else actual[0]), {"known.h": text}, se[-1500:])
+    # `<::` is `<` followed by `::` unless `:` or `>` comes next ([lex.pptoken]); the lexer has one character of look-ahead and takes `<:` for `[`
+    text = XPRELUDE + "namespace nsq { struct H { int v; }; }\n// CHECK: x\nextern Box<::nsq::H> vq;\n"
+    (wd / "known.h").write_text(text)
+    rc, so, se = iglib.sh([str(bdir / "bin" / "parse_file"), "-T", "known.h"], cwd=str(wd), timeout=60)
+    ck.search_case("known-limit-probe")
+    if "error" in se.split("Finished parsing")[0] or not re.search(r"^actual: .*nsq::H", se, re.M):
+        ck.violation("known:less-colon-colon", "`extern Box<::nsq::H> vq;` is a syntax error: `<:` is taken for the digraph `[` although `<::` not followed by `:` or `>` is `<` `::` "
+                     "([lex.pptoken]/3); the lexer looks one character ahead (check_digraph), the rule needs three", {"known.h": text}, se[-1500:])
 
 
 def run_stub_headers(ck, bdir):
